@@ -8,6 +8,8 @@
 #include <cstdio>
 #include <fstream>
 #include <map>
+#include <queue>
+#include <type_traits>
 #include <sstream>
 #include <string>
 #include <vector>
@@ -91,6 +93,28 @@ inline std::vector<PPath> load_paths(const char * fn) {
 }
 
 // Result reporting: one JSON line on stdout that tools/vlib.py parses.
+// snapshot of the elements of a std::queue (by copying and popping) or of any iterable container (deque, list,
+// vector): the projection must not depend on which of them the library uses for a private member
+template <class T, class C>
+inline std::vector<T> snapshot(std::queue<T, C> q) {
+    std::vector<T> v;
+    while (!q.empty()) { v.push_back(q.front()); q.pop(); }
+    return v;
+}
+template <class Cont>
+inline auto snapshot(const Cont & c) -> std::vector<typename std::decay<decltype(*c.begin())>::type> {
+    return std::vector<typename std::decay<decltype(*c.begin())>::type>(c.begin(), c.end());
+}
+// remove (and return) the oldest element of either kind
+template <class T, class C>
+inline T pop_oldest(std::queue<T, C> & q) { T x = q.front(); q.pop(); return x; }
+template <class Cont>
+inline auto pop_oldest(Cont & c) -> typename std::decay<decltype(*c.begin())>::type {
+    auto x = *c.begin();
+    c.erase(c.begin());
+    return x;
+}
+
 struct RunStats {
     long paths = 0, steps = 0, mismatches = 0;
     std::string first;   // description of the first mismatch
